@@ -1,4 +1,5 @@
 import SFV.Proofs.IoIR
+import SFV.Proofs.IoPi
 /-!
 # C14 — saving and loading a program preserves its meaning
 
@@ -202,6 +203,45 @@ theorem factor_out_pi_denotes (m : Int) :
   piTerm_denotes m
 
 example : piTerm 60 = (5, 1) ∧ piString 60 = "5*np.pi" ∧ piTerm 63 = (21, 4) ∧ piTerm (-2) = (-1, 6) := by
+  decide +kernel
+
+/-- **`generate_code`: executing the printed code rebuilds the program.**  For every program whose
+parameters are numbers or TDM loop variables (any classes, modes, inverse flags, `select`, `dark_counts`,
+`Fouriergate`, TDM `N` and per-bin arrays), the meaning of the printed text (`evalCode`: literals, multiples of
+`np.pi`, `p[i]`, keyword options, `.H`) is the program itself (`codeNorm`: without name / target / options,
+which the code does not state) with every number replaced by what its printed form denotes. -/
+theorem generate_code_rebuilds (p : Prog) (h : ExprCode p) : evalCode (genCode p) = .ok (codeNorm p) :=
+  code_prog_rt p h
+
+/-- `5π/12` as a float: printed `5*np.pi/12` -/
+def exPi : Sc := .flt (5895198126690367 / 4503599627370496)
+
+def exCode : Prog :=
+  { name := "c", n := 3, tdm := some { N := [1, 2], params := [[exPi, .flt (1/4)], [.int 1, .int 2]] },
+    cmds := [
+      { cls := "BSgate", regs := [1, 2], pars := [.sym (loopSym 0), exPi |> Val.sc], dagger := true },
+      { cls := "MeasureHomodyne", regs := [0], pars := [.sym (loopSym 1)], select := some (.sc (.flt 0)) } ] }
+
+example : genNum exPi = .piMul 5 12 ∧ genNum (.flt (1/4)) = .lit (.flt (1/4)) ∧
+    evalCode (genCode exCode) = .ok (codeNorm exCode) ∧ (codeNorm exCode).cmds.map (·.dagger) = [true, false] ∧
+    codeNorm exCode ≠ { exCode with name := "" } := by
+  decide +kernel
+
+/-- **every printed number denotes its parameter**: what `codeNorm` puts in place of a number `q` is `q`
+itself or the value of `c*np.pi/d`, within `3e-6 + 1e-15·|q|` of `q` (`np.isclose` tolerance of
+`_factor_out_pi`; with the truncating original the error was up to `π/12`). -/
+theorem generated_numbers_denote (s : Sc) : ScClose s (denSc s) :=
+  genNum_close s
+
+example : denSc exPi ≠ exPi ∧ denSc (.flt (1/4)) = .flt (1/4) := by decide +kernel
+
+/-- **the window of `_factor_out_pi`**: a number is printed as the multiple `m` of `π/12` only if it lies within
+`2.7e-6` of it. -/
+theorem factor_out_pi_window (q : Rat) (m : Int) (h : piMultiple q = some m) :
+    |q - (m : Rat) * piF| ≤ 27 / 10000000 :=
+  piMultiple_close q m h
+
+example : piMultiple (5895198126690367 / 4503599627370496) = some 5 ∧ piMultiple (13 / 10) = none := by
   decide +kernel
 
 /-! ### known findings: what the converters do outside the fragment (model = code) -/
